@@ -37,13 +37,26 @@ def run(R):
         x, y = z3.simplify(sx(x, W)), z3.simplify(sx(y, W))
         return E.mulw(W)(x, y) if ab else x * y
 
-    def layered(name, mk, note=""):
+    ai, bi = z3.Int("a"), z3.Int("b")
+    fin_i = lambda v: z3.And(v >= -M, v <= M)
+    nan_i = lambda v: z3.Or(v == NAN, v == -NAN)
+
+    def layered(name, mk, note="", mk_int=None):
+        """MULW abstraction -> INT encoding (exact, good at finding counterexamples) -> precise BV"""
         def build(ab):
             o = E.Opts(div_spec=True, mul_uf=True) if ab else E.Opts(div_spec=True, wide_mul=True)
             calls, assume, goal = mk(o, ab)
             return Ob(name, "verify", [a, b], calls, assume, goal, note=note, portfolio=PF, abstract=ab)
+
+        def build_int():
+            ins, calls, assume, goal = mk_int(E.Opts(int_mode=True))
+            ob2 = Ob(name, "verify", ins, calls, assume, goal, note=note + " [INT encoding]", portfolio=("z3", "cvc5"),
+                     timeout=60)
+            ob2.tag = "int"
+            ob2.fallback = lambda: build(False)
+            return ob2
         ob = build(True)
-        ob.fallback = lambda: build(False)
+        ob.fallback = build_int if mk_int is not None else (lambda: build(False))
         R._add(ob)
 
     o = E.Opts(div_spec=True, wide_mul=True)
@@ -59,7 +72,13 @@ def run(R):
             absb = sabs(sx(b, W))
             return [c2], z3.And(D, b != 0), z3.Or(isnan_raw(c2.out), z3.And(err <= absb, err >= -absb))
 
-        layered("%s/within-1ulp-or-nan" % u, mk, "b != 0: NaN or |r*b - a*2^16| <= |b| (within 2^-16 of the exact quotient)")
+        def mi(o2, u=u):
+            c2 = R.call(h, u, [ai, bi], opts=o2)
+            err = c2.out * bi - ai * 65536
+            absb = z3.If(bi < 0, -bi, bi)
+            return [ai, bi], [c2], z3.And(fin_i(ai), fin_i(bi), bi != 0), z3.Or(nan_i(c2.out), z3.And(err <= absb, err >= -absb))
+        layered("%s/within-1ulp-or-nan" % u, mk, "b != 0: NaN or |r*b - a*2^16| <= |b| (within 2^-16 of the exact quotient)",
+                mk_int=mi)
         R.verify("%s/not-nan-when-a-small" % u, [a, b], [c],
                  z3.And(D, b != 0, a < val(1 << 47), a > val(-(1 << 47))), z3.Not(nan),
                  note="|a| < 2^31 => not NaN", portfolio=PF)
@@ -79,8 +98,14 @@ def run(R):
         fits = z3.And(N <= val((1 << 63) - 1, W), N >= val(-(1 << 63), W))
         for u in ("divr_", "diveq_"):
             c = R.call(h, u + k, [a, n], opts=ou)
+            def exact(ins, outs, k=k):
+                av, nv = ins["a"], ins["n"]
+                if k not in B.SIGNED and nv < 0:
+                    nv += 1 << B.WIDTH[k]
+                q = abs(av) // abs(nv)
+                return outs[0] == (q if (av < 0) == (nv < 0) else -q)
             R.verify("%s%s/truncated-quotient" % (u, k), [a, n], [c], z3.And(finite(a), n != 0),
-                     z3.If(fits, c.out == SDIV(a, z3.Extract(63, 0, N)), c.out == val(0)),
+                     z3.If(fits, c.out == SDIV(a, z3.Extract(63, 0, N)), c.out == val(0)), exact=exact,
                      note="fixed/integer == trunc(a/n) for every non-zero n (mathematical value)", portfolio=PF)
             R.verify("%s%s/zero-nan" % (u, k), [a, n], [c], z3.And(finite(a), n == 0), isnan_raw(c.out), portfolio=PF)
             R.verify_noub("%s%s/no-trap-no-UB" % (u, k), [a, n], [c], finite(a), portfolio=PF)
